@@ -126,7 +126,7 @@ class EffectiveLindbladian(Gate):
         identity = np.eye(self.dim)
 
         tmp_j_mat = np.zeros((self.dim, self.dim), dtype=np.complex128)
-        for alpha, B_alpha in enumerate(basis[1:]):
+        for alpha, B_alpha in enumerate(basis):
             trace = np.trace(
                 lindbladian_cb
                 @ (mutil.kron(B_alpha, identity) + mutil.kron(identity, B_alpha.conj()))
